@@ -17,6 +17,7 @@ Section SrvStream.
   | SendHeader (md : MD)
   | SetTrailer (md : MD)
   | SendMsg (p : P)
+  | SendMsgBad (p : P)       (* SendMsg of a value the codec rejects: codec.Marshal fails first (stream.go l.170-174) *)
   | SendTrailer (st : ST).
 
   (* what is handed to the transport: the header metadata it carries (None =
@@ -26,7 +27,7 @@ Section SrvStream.
   | WMsg (h : option (list MD)) (p : P)
   | WTrailer (h : option (list MD)) (t : list MD) (st : ST).
 
-  Inductive sres := ROk | RErrHeadersSent | RErrTrailersSent | RErrWrite.
+  Inductive sres := ROk | RErrHeadersSent | RErrTrailersSent | RErrWrite | RErrMarshal.
 
   (* one API call; [wok] tells whether the transport write (if any) succeeds *)
   Definition sstep (s : sstate) (o : sop) (wok : bool) : sstate * option wenv * sres :=
@@ -45,6 +46,9 @@ Section SrvStream.
     | SendMsg p =>
         let h := if hsent s then None else Some (hdrs s) in
         (mkS (hdrs s) true (trls s) (tsent s), Some (WMsg h p), if wok then ROk else RErrWrite)
+    | SendMsgBad _ =>
+        (* the error is returned before anything else happens: pending headers stay pending *)
+        (s, None, RErrMarshal)
     | SendTrailer st =>
         if tsent s then (s, None, RErrTrailersSent)
         else let h := if hsent s then None else Some (hdrs s) in
